@@ -726,7 +726,12 @@ func (lh *levelHandler) searchL0SST(key []byte) (*kv.Entry, error) {
 		version uint64
 		best    *kv.Entry
 	)
-	for _, table := range lh.tables {
+	// L0 tables are ordered by file id, i.e. oldest first. Walk them newest
+	// first: a later table only replaces the candidate when it holds a strictly
+	// greater version, so among equal versions (every non-transactional write
+	// uses the same one) the most recently flushed table wins.
+	for i := len(lh.tables) - 1; i >= 0; i-- {
+		table := lh.tables[i]
 		if table == nil {
 			continue
 		}
